@@ -106,6 +106,13 @@ static void c08_case(const uint8_t* src, size_t len) {
                    st_name(r5.status), r5.read, rec_n, st_name(res.status), res.read, n1);
     VH_COUNT("minimal_table_calls", 1);
   }
+  /* the library's own do-nothing table, passed by address: status, read and required are the same as with any other table */
+  {
+    struct cbor_decoder_result r7 = cbor_stream_decode(buf, len, &cbor_empty_callbacks, &ctx);
+    if (r7.status != res.status || r7.read != res.read || (res.status == CBOR_DECODER_NEDATA && r7.required != res.required))
+      vh_violation("depends-on-the-callback-table", "with &cbor_empty_callbacks the call gave %s/read=%zu/required=%zu, with a recording table %s/read=%zu/required=%zu", st_name(r7.status), r7.read, r7.required, st_name(res.status), res.read, res.required);
+    VH_COUNT("empty_table_calls", 1);
+  }
   /* re-entrancy: the callback decodes something else (embedded CBOR) before it returns; the outer result is unaffected */
   if (n1 == 1) {
     rec_reset();
@@ -401,6 +408,11 @@ static void c09_case(const uint8_t* stream, size_t n, const uint32_t* cuts, size
       rec_reset();
       struct cbor_decoder_result res = cbor_stream_decode(win, avail, &rec_table, &ctx);
       calls++;
+      { /* a client that only frames the stream passes the library's own do-nothing table: same status, read, required */
+        struct cbor_decoder_result re = cbor_stream_decode(win, avail, &cbor_empty_callbacks, &ctx);
+        if (re.status != res.status || re.read != res.read || (res.status == CBOR_DECODER_NEDATA && re.required != res.required))
+          vh_violation("depends-on-the-callback-table", "at stream offset %zu with %zu bytes buffered: &cbor_empty_callbacks gives %s/read=%zu/required=%zu, a recording table %s/read=%zu/required=%zu", coff, avail, st_name(re.status), re.read, re.required, st_name(res.status), res.read, res.required);
+      }
       if (res.status == CBOR_DECODER_FINISHED) {
         if (rec_n != 1) vh_violation("callback-count", "FINISHED with %d callbacks at stream offset %zu", rec_n, coff);
         if (rec_n >= 1) ev_add(&got, rec_ev[0].slot, canon_arg(rec_ev[0].slot, rec_ev[0].arg, false), rec_ev[0].ptr, rec_ev[0].ptr ? rec_ev[0].len : 0);
